@@ -23,11 +23,13 @@ from pathlib import Path
 
 VERIF = Path(__file__).resolve().parent.parent
 REPO = Path(os.environ.get("VERIF_REPO", "/repo"))
-WORK = VERIF / "work"
+# VERIF_WORK / VERIF_EVID / VERIF_REPLAYS relocate scratch, evidence and replay output (used when several trees under test,
+# e.g. seeded changes in scratch worktrees selected with VERIF_REPO, are checked side by side)
+WORK = Path(os.environ.get("VERIF_WORK", str(VERIF / "work")))
 SPEC = VERIF / "spec"
 HARNESS = VERIF / "harness"
-EVID = VERIF / "evidence"
-REPLAYS = VERIF / "replays"
+EVID = Path(os.environ.get("VERIF_EVID", str(VERIF / "evidence")))
+REPLAYS = Path(os.environ.get("VERIF_REPLAYS", str(VERIF / "replays")))
 GUARD = "XDIS_VERIF_HOOKS"
 
 PYENV_ROOT = Path("/root/.pyenv/versions")
